@@ -11,7 +11,7 @@ use utils::singleflight::{Group, SingleflightError};
 
 use crate::engine::{Case, Ctx};
 
-pub const RULE: &str = "scripts of events {Call(key in 3 keys, outcome Ok / Err / Panic, gate in 4 gates, yields before the call, optionally a second call by the same caller straight after the first returns), Release(gate), Yield(n)} with 1-12 callers; every supplied task logs its start, waits for its gate and returns its outcome tagged with the caller id; remaining gates are released at the end. Mode A: current-thread runtime with a paused (virtual) clock and a generated plan of cooperative yields at three guarded points inside Group::work (after the call-map lookup, after the result future is created, before the owner removes the call) - deterministic, and a caller that would wait forever trips a 1-hour virtual timeout as soon as the runtime is idle. Mode B: the same scripts on a 2-4 worker multi-thread runtime (real parallelism); there a caller counts as waiting forever only by relative progress - every gate released, every started task finished, and the same runtime completed several rounds of 500 fresh tasks and 10 fresh flights while the caller still had not returned - never by a wall-clock limit (a plain time limit is inconclusive). Oracle over the event log (logical timestamps): tasks started = calls reporting ownership; an owner's own task started exactly once and a non-owner's never; an owner receives its own value / error / join error; every non-owner result names an owner of the same key whose call interval overlaps its own and whose outcome kind matches (value id, error payload, or panic notification); the executions of two tasks of one key never overlap in time; all callers return. non-trivial = script in which >= 2 waiters joined one flight and a later call on the same key started a new flight; distinct by fingerprint of the script";
+pub const RULE: &str = "scripts of events {Call(key in 3 keys, outcome Ok / Err / Panic, gate in 4 gates, yields before the call, optionally a second call by the same caller straight after the first returns), Release(gate), Yield(n)} with 1-12 callers; every supplied task logs its start, waits for its gate and returns its outcome tagged with the caller id; remaining gates are released at the end. Mode A: current-thread runtime with a paused (virtual) clock and a generated plan of cooperative yields at three guarded points inside Group::work (after the call-map lookup, after the result future is created, before the owner removes the call) - deterministic, and a caller that would wait forever trips a 1-hour virtual timeout as soon as the runtime is idle. Mode B: the same scripts on a 2-4 worker multi-thread runtime (real parallelism); there a caller counts as waiting forever only by relative progress - every gate released, every started task finished, and the same runtime completed several rounds of 500 fresh tasks and 10 fresh flights while the caller still had not returned - never by a wall-clock limit (a plain time limit is inconclusive). Oracle over the event log (logical timestamps): tasks started = calls reporting ownership; an owner's own task started exactly once and a non-owner's never; an owner receives its own value / error / join error; every non-owner result names an owner of the same key whose call interval overlaps its own and whose outcome kind matches (value id, error payload, or panic notification); the executions of two tasks of one key never overlap in time; all callers return. Stream 'crowd' (paused clock, current-thread runtime): one flight joined by 1 to 140 000 callers before its task is released, the count drawn with a bias to 2^8, 2^16, 2^17 and their neighbours (the widths a counter of waiters can be kept in), task outcome Ok / Err / Panic, up to 2 bystander callers on another key; oracle: the task ran once, every caller returns (1-hour virtual timeout on an idle runtime otherwise), exactly one owner, every caller has the owner's outcome, bystanders their own, and a later call starts a new flight; non-trivial there = >= 2 callers. non-trivial = script in which >= 2 waiters joined one flight and a later call on the same key started a new flight; distinct by fingerprint of the script";
 
 pub const ASSUMPTIONS: &[&str] = &[
     "callers are not cancelled while waiting (the property does not cover dropped callers)",
@@ -399,7 +399,166 @@ fn mode_b(script: &Script, info: &mut Case) -> Result<(), String> {
     Ok(())
 }
 
+// ---- stream 'crowd': one flight joined by very many callers (counts around the u8 / u16 / 2^17 widths) ----
+
+#[derive(Clone, Debug, Serialize, Deserialize)]
+pub struct Crowd {
+    pub callers: u32,
+    pub outcome: u8,
+    /// callers on a second key with its own task (must not be affected)
+    pub bystanders: u8,
+    /// yields between spawning the first half and the second half of the callers
+    pub split_yields: u8,
+}
+
+fn crowd_strategy() -> impl Strategy<Value = Crowd> {
+    (
+        // the widths a waiter counter could be kept in (u8, u16) and the next multiple, each -1 / exact / +1
+        prop_oneof![
+            4 => (prop_oneof![Just(256u32), Just(65_536u32), Just(131_072u32)], 0u32..3).prop_map(|(b, d)| b + d - 1),
+            2 => crate::gen::edge_u32(140_000),
+            2 => 1u32..300,
+        ],
+        0u8..3,
+        0u8..3,
+        0u8..3,
+    ).prop_map(|(callers, outcome, bystanders, split_yields)| Crowd { callers: callers.max(1), outcome, bystanders, split_yields })
+}
+
+fn crowd(c: &Crowd, info: &mut Case) -> Result<(), String> {
+    use std::sync::atomic::AtomicU32;
+    let rt = tokio::runtime::Builder::new_current_thread().enable_all().start_paused(true).build().map_err(|e| format!("[sig:infra] runtime: {e}"))?;
+    let c = c.clone();
+    let n = c.callers as usize;
+    let verdict: Result<(), String> = rt.block_on(async move {
+        let group: Arc<Group<u64, String>> = Arc::new(Group::new());
+        let gate = tokio::sync::watch::channel(false).0;
+        let started = Arc::new(AtomicU32::new(0));
+        let started_by = Arc::new(AtomicU64::new(u64::MAX));
+        let returned = Arc::new(AtomicU32::new(0));
+        let mut handles = Vec::with_capacity(n + 4);
+        let spawn_caller = |id: u64, key: &'static str, outcome: u8| {
+            let (group, mut rx, started, started_by, returned) = (group.clone(), gate.subscribe(), started.clone(), started_by.clone(), returned.clone());
+            tokio::spawn(async move {
+                let main = key == "crowd";
+                let task = async move {
+                    if main {
+                        started.fetch_add(1, Ordering::SeqCst);
+                        started_by.store(id, Ordering::SeqCst);
+                    }
+                    while !*rx.borrow() {
+                        if rx.changed().await.is_err() {
+                            break;
+                        }
+                    }
+                    match outcome % 3 {
+                        0 => Ok(id),
+                        1 => Err(format!("E<{id}>")),
+                        _ => panic!("task {id} panics"),
+                    }
+                };
+                let (res, owner) = group.work(key, task).await;
+                if main {
+                    returned.fetch_add(1, Ordering::SeqCst);
+                }
+                (id, res.map_err(|e| format!("{e:?}")), owner)
+            })
+        };
+        for i in 0..n {
+            if i == n / 2 {
+                for _ in 0..c.split_yields {
+                    tokio::task::yield_now().await;
+                }
+            }
+            handles.push(spawn_caller(i as u64, "crowd", c.outcome));
+        }
+        for b in 0..c.bystanders {
+            handles.push(spawn_caller(1_000_000 + b as u64, "bystander", 0));
+        }
+        // let every caller run until it is parked on the flight
+        for _ in 0..4 {
+            tokio::task::yield_now().await;
+        }
+        let _ = gate.send(true);
+        let all = async {
+            let mut out = Vec::with_capacity(handles.len());
+            for h in handles {
+                out.push(h.await);
+            }
+            out
+        };
+        let out = match tokio::time::timeout(Duration::from_secs(3600), all).await {
+            Ok(o) => o,
+            Err(_) => {
+                return Err(format!(
+                    "[sig:c20-hang] {} of {n} callers of one flight never returned although its task (started {} time(s)) was released and the runtime went idle",
+                    n - returned.load(Ordering::SeqCst) as usize,
+                    started.load(Ordering::SeqCst)
+                ));
+            },
+        };
+        if started.load(Ordering::SeqCst) != 1 {
+            return Err(format!("[sig:c20-task-count] {n} callers joined one flight before its task was released, but {} tasks were started", started.load(Ordering::SeqCst)));
+        }
+        let owner_id = started_by.load(Ordering::SeqCst);
+        let mut owners = 0;
+        for r in out {
+            let (id, res, owner) = r.map_err(|e| format!("[sig:c20-caller-panicked] a caller task itself failed: {e}"))?;
+            if id >= 1_000_000 {
+                match res {
+                    Ok(v) if v >= 1_000_000 => {},
+                    other => return Err(format!("[sig:c20-cross-key] bystander {id} on another key received {other:?}")),
+                }
+                continue;
+            }
+            if owner {
+                owners += 1;
+                if id != owner_id {
+                    return Err(format!("[sig:c20-owner-mismatch] caller {id} reports ownership but the task of caller {owner_id} ran"));
+                }
+            }
+            match (c.outcome % 3, &res) {
+                (0, Ok(v)) if *v == owner_id => {},
+                (1, Err(e)) if e.contains(&format!("E<{owner_id}>")) || !owner => {},
+                (2, Err(_)) => {},
+                _ => return Err(format!("[sig:c20-wrong-result] caller {id} (owner: {owner}) of a flight whose task (of caller {owner_id}, outcome kind {}) finished received {res:?}", c.outcome % 3)),
+            }
+        }
+        if owners != 1 {
+            return Err(format!("[sig:c20-owner-count] {owners} callers of one flight report ownership"));
+        }
+        // the flight is over: a later call starts a new one
+        let fresh = Arc::new(AtomicU32::new(0));
+        let f2 = fresh.clone();
+        let again = group.work("crowd", async move {
+            f2.fetch_add(1, Ordering::SeqCst);
+            Ok(77u64)
+        });
+        match tokio::time::timeout(Duration::from_secs(3600), again).await {
+            Err(_) => return Err("[sig:c20-hang] a call made after every caller of the finished flight returned never returns".to_string()),
+            Ok((r, own)) => {
+                if fresh.load(Ordering::SeqCst) != 1 || !own || r.as_ref().ok() != Some(&77) {
+                    return Err(format!("[sig:c20-stale-flight] a call made after the flight finished did not run its own task (ran {}, owner {own}, result {:?})", fresh.load(Ordering::SeqCst), r.map_err(|e| format!("{e:?}"))));
+                }
+            },
+        }
+        Ok(())
+    });
+    verdict?;
+    info.label(match n {
+        0..=255 => "crowd<=255",
+        256..=65_534 => "crowd-256..65534",
+        65_535..=65_537 => "crowd-65535..65537",
+        _ => "crowd>65537",
+    });
+    info.label(format!("crowd-outcome-{}", c.outcome % 3));
+    info.nontrivial_if(n >= 2);
+    info.note = Some(json!({"callers": n, "outcome": c.outcome % 3, "bystanders": c.bystanders}));
+    Ok(())
+}
+
 pub fn run(ctx: &Ctx) {
     ctx.explore("virtual-clock", ctx.tier.pick(100_000, 2_000_000), 16, script_strategy, mode_a);
     ctx.explore("multi-thread", ctx.tier.pick(3_000, 60_000), 4, script_strategy, mode_b);
+    ctx.explore("crowd", ctx.tier.pick(160, 4_000), 16, crowd_strategy, crowd);
 }
